@@ -27,6 +27,7 @@ pub fn def() -> CheckDef {
         cpu_limit_s: 120,
         fault_kinds: "none (fault-free disk)",
         count_subruns: false,
+        expect_probes: &["fat_sectors>=2", "difat_sector", "dir_sectors>=2", "minifat_sectors>=2", "ministream_sectors>=2", "free_sectors_present", "free_mini_sectors_present", "unallocated_entries_present", "node_with_two_siblings"],
     }
 }
 
